@@ -561,6 +561,9 @@ func (p *printer) smt(t *Term, pos bool) string {
 		}
 		return smtName(t.name)
 	case "app":
+		if !p.ring && strings.HasPrefix(t.name, "fint_") {
+			return p.smt(t.args[0], true) // canonical representative: identity on the Int representation
+		}
 		p.uf(t.name, t.sort, t.args)
 		if len(t.args) == 0 {
 			return smtName(t.name)
